@@ -676,6 +676,13 @@ func spdxInputs(c *engine.Ctx) {
 
 // reduced real files ------------------------------------------------------------------
 
+func repoDir() string {
+	if d := os.Getenv("VERIF_REPO"); d != "" {
+		return d
+	}
+	return "/repo"
+}
+
 func realInputs(c *engine.Ctx) {
 	c.Group("real-files")
 	files := []struct {
@@ -683,11 +690,11 @@ func realInputs(c *engine.Ctx) {
 		f    formats.Format
 		fam  string
 	}{
-		{"/repo/test/conformance/testdata/cyclonedx/1.4/json/bom-1.4.json", formats.CDX14JSON, "cdx"},
-		{"/repo/test/conformance/testdata/cyclonedx/1.5/json/bom-1.5.json", formats.CDX15JSON, "cdx"},
-		{"/repo/test/conformance/testdata/spdx/2.3/json/curl.spdx.json", formats.SPDX23JSON, "spdx"},
-		{"/repo/test/conformance/testdata/spdx/2.3/json/bom-v0.4.1_cirros-0.4.0.spdx.json", formats.SPDX23JSON, "spdx"},
-		{"/repo/examples/vt.spdx.json", formats.SPDX23JSON, "spdx"},
+		{repoDir() + "/test/conformance/testdata/cyclonedx/1.4/json/bom-1.4.json", formats.CDX14JSON, "cdx"},
+		{repoDir() + "/test/conformance/testdata/cyclonedx/1.5/json/bom-1.5.json", formats.CDX15JSON, "cdx"},
+		{repoDir() + "/test/conformance/testdata/spdx/2.3/json/curl.spdx.json", formats.SPDX23JSON, "spdx"},
+		{repoDir() + "/test/conformance/testdata/spdx/2.3/json/bom-v0.4.1_cirros-0.4.0.spdx.json", formats.SPDX23JSON, "spdx"},
+		{repoDir() + "/examples/vt.spdx.json", formats.SPDX23JSON, "spdx"},
 	}
 	for _, rf := range files {
 		rf := rf
